@@ -20,15 +20,24 @@
 EXTENDS ManifestMatch
 
 CONSTANTS Hash(_),   \* manifest -> version
-          MaxDecl    \* versions recorded on chain per deployment (creation + updates)
+          MaxDecl,   \* versions recorded on chain per deployment (creation + updates)
+          MaxSubmits,\* submissions per behaviour (0: the gate is only stated as a predicate, GateAccept)
+          StoreRule  \* which manifest of a validated batch the manager keeps and announces:
+                     \*   "firstValid"  - the first request that PASSED validateRequest (the code)
+                     \*   "firstQueued" - the first request of the batch (a plausible "optimisation"; TLC must refute
+                     \*                   AnnounceSound under it - non-vacuity witness of the batch model)
 
 ASSUME HashInjective == \A a, b \in MSpace : Hash(a) = Hash(b) => a = b
 
 VARIABLES decl,      \* manifests whose hashes the tenant recorded on chain, in order (decl[1] at creation)
           fetched,   \* 0, or the index in decl of the version the manager's one query returned
           versions,  \* indices in decl of the update events the manager has seen, in arrival order
-          nextev     \* index in decl of the next update event to be published on the bus
-gvars == <<D, M, decl, fetched, versions, nextev>>
+          nextev,    \* index in decl of the next update event to be published on the bus
+          queue,     \* manifests submitted while the chain query is in flight (m.requests), in arrival order
+          replies,   \* [m, ok, exp]: every reply given, with the version expected at that moment
+          announced  \* [m, exp]: every manifest stored and published in ManifestReceived (what gets deployed)
+gvars == <<D, M, decl, fetched, versions, nextev, queue, replies, announced>>
+svars == <<queue, replies, announced>>
 
 ChainVersion == Hash(decl[Len(decl)])
 Expected == IF Len(versions) > 0 THEN Hash(decl[versions[Len(versions)]]) ELSE Hash(decl[fetched])
@@ -37,22 +46,46 @@ Expected == IF Len(versions) > 0 THEN Hash(decl[versions[Len(versions)]]) ELSE H
 GateAccept(m) == fetched > 0 /\ Hash(m) = Expected /\ Accept(m, D)
 
 GInit == Init /\ decl = <<>> /\ fetched = 0 /\ versions = <<>> /\ nextev = 2
+         /\ queue = <<>> /\ replies = <<>> /\ announced = <<>>
 
 \* the groups are fixed once the deployment exists (an update changes the version only)
-BuildGroups == decl = <<>> /\ Next /\ UNCHANGED <<decl, fetched, versions, nextev>>
-Create(m) == decl = <<>> /\ decl' = <<m>> /\ UNCHANGED <<D, M, fetched, versions, nextev>>
+BuildGroups == decl = <<>> /\ Next /\ UNCHANGED <<decl, fetched, versions, nextev>> /\ UNCHANGED svars
+Create(m) == decl = <<>> /\ decl' = <<m>> /\ UNCHANGED <<D, M, fetched, versions, nextev>> /\ UNCHANGED svars
 Update(m) == Len(decl) \in 1..(MaxDecl - 1) /\ decl' = Append(decl, m) /\ UNCHANGED <<D, M, fetched, versions, nextev>>
-\* the manager's single Query().Deployment
-Fetch == decl # <<>> /\ fetched = 0 /\ fetched' = Len(decl) /\ UNCHANGED <<D, M, decl, versions, nextev>>
+             /\ UNCHANGED svars
+\* validateRequests on a batch q with the version `exp` expected: every request is answered, the valid ones ok;
+\* one manifest is kept and announced if any request was valid
+ValidReq(m, exp) == Hash(m) = exp /\ Accept(m, D)
+BatchReplies(q, exp) == [i \in DOMAIN q |-> [m |-> q[i], ok |-> ValidReq(q[i], exp), exp |-> exp]]
+Kept(q, exp) ==
+    IF StoreRule = "firstValid"
+    THEN q[CHOOSE i \in DOMAIN q : ValidReq(q[i], exp) /\ \A j \in 1..(i - 1) : ~ValidReq(q[j], exp)]
+    ELSE q[1]
+Validate(q, exp) ==
+    /\ replies' = replies \o BatchReplies(q, exp)
+    /\ announced' = IF \E i \in DOMAIN q : ValidReq(q[i], exp)
+                     THEN Append(announced, [m |-> Kept(q, exp), exp |-> exp]) ELSE announced
+    /\ queue' = <<>>
+ExpectedWith(f) == IF Len(versions) > 0 THEN Hash(decl[versions[Len(versions)]]) ELSE Hash(decl[f])
+
+\* the manager's single Query().Deployment returns: whatever was queued meanwhile is validated as ONE batch
+Fetch == /\ decl # <<>> /\ fetched = 0 /\ fetched' = Len(decl)
+         /\ IF queue = <<>> THEN UNCHANGED svars ELSE Validate(queue, ExpectedWith(Len(decl)))
+         /\ UNCHANGED <<D, M, decl, versions, nextev>>
+\* Service.Submit (the provider holds a lease): queued while the query is in flight, else validated at once
+Submit(m) == /\ decl # <<>> /\ Len(queue) + Len(replies) < MaxSubmits
+             /\ IF fetched = 0 THEN queue' = Append(queue, m) /\ UNCHANGED <<replies, announced>>
+                ELSE Validate(<<m>>, Expected)
+             /\ UNCHANGED <<D, M, decl, fetched, versions, nextev>>
 \* an update event reaches the manager ...
 SeeUpdate == nextev <= Len(decl) /\ versions' = Append(versions, nextev) /\ nextev' = nextev + 1
-             /\ UNCHANGED <<D, M, decl, fetched>>
+             /\ UNCHANGED <<D, M, decl, fetched>> /\ UNCHANGED svars
 \* ... or passes before the provider holds a lease on the deployment (no manager yet: the event is dropped)
 MissUpdate == nextev <= Len(decl) /\ fetched = 0 /\ versions = <<>> /\ nextev' = nextev + 1
-              /\ UNCHANGED <<D, M, decl, fetched, versions>>
+              /\ UNCHANGED <<D, M, decl, fetched, versions>> /\ UNCHANGED svars
 
 GNext == \/ BuildGroups
-         \/ \E m \in MSpace : Create(m) \/ Update(m)
+         \/ \E m \in MSpace : Create(m) \/ Update(m) \/ Submit(m)
          \/ Fetch \/ SeeUpdate \/ MissUpdate
 GSpec == GInit /\ [][GNext]_gvars
 
@@ -66,6 +99,17 @@ GateSound ==
 \* once the manager has caught up with the chain, only the CURRENT version is accepted
 CaughtUp == fetched > 0 /\ nextev > Len(decl) /\ (versions = <<>> => fetched = Len(decl))
 GateCurrent == \A m \in MSpace : (CaughtUp /\ GateAccept(m)) => (Hash(m) = ChainVersion /\ m = decl[Len(decl)])
+\* every reply "ok" and every ANNOUNCED manifest (what the provider deploys) had, when it was given / stored, the
+\* expected version as its hash, is a manifest whose hash was recorded on chain, and matches the on-chain groups
+ReplySound == \A i \in DOMAIN replies : replies[i].ok =>
+                  /\ Hash(replies[i].m) = replies[i].exp /\ OracleMatch(replies[i].m, D)
+                  /\ \E k \in DOMAIN decl : replies[i].m = decl[k]
+AnnounceSound == \A i \in DOMAIN announced :
+                  /\ Hash(announced[i].m) = announced[i].exp /\ OracleMatch(announced[i].m, D)
+                  /\ \E k \in DOMAIN decl : announced[i].m = decl[k]
+\* and nothing is announced that was not answered ok
+AnnouncedWasAccepted == \A i \in DOMAIN announced : \E k \in DOMAIN replies :
+                            replies[k].ok /\ replies[k].m = announced[i].m /\ replies[k].exp = announced[i].exp
 \* non-vacuity witnesses (checked as "never" properties in a separate cfg; they must be VIOLATED)
 NeverAccepts == \A m \in MSpace : ~GateAccept(m)
 NeverStale   == \A m \in MSpace : GateAccept(m) => Hash(m) = ChainVersion
